@@ -57,7 +57,7 @@ class Scenario:
     def start(self):
         self.nw = env.NodeWorld(self.cfg, chooser=self.chooser, rand_plan=self.rand_plan, start=False)
         self.nw.world.connect_plan.extend(self.start_plan)
-        self.nw.node.start()
+        self.nw.start_node()
         self.nw.world.run()
         self.sync()
         return self.nw
@@ -279,6 +279,8 @@ class Scenario:
                 avps = [rc.enc_avp(c, (b"\x00\x01\x0a\x00\x00" if c == 257 else p), fl, v) for c, fl, v, p in f.avps]
                 return rc.enc_msg(env.CMD_CER, R, 0, hbh, e2e, avps)
             raise sk.HarnessError(name)
+        if name == "cea_unsolicited":       # a CEA on a connection that never sent a CER
+            return env.cea(2001, host=host, hbh=0x9, e2e=0x9)
         if name.startswith("cea"):
             if s.kind != "dialled" or s.cea_sent:
                 return None
@@ -301,8 +303,6 @@ class Scenario:
             if var == "norc":
                 return env.cea(2001, with_result=False, **kw)
             raise sk.HarnessError(name)
-        if name == "cea_unsolicited":       # a CEA on a connection that never sent a CER
-            return env.cea(2001, host=host, hbh=0x9, e2e=0x9)
         s.nreq += 1
         hbh, e2e = 0x1000 * (s.idx + 1) + s.nreq, 0x2000 * (s.idx + 1) + s.nreq
         if name == "badlen":
